@@ -280,6 +280,10 @@ func installHooks() {
 
 func newWorld(r *vf.Run, dir string, nMP int, useGRPC, conc bool) (*world, error) {
 	w := &world{r: r, dir: dir, grpc: useGRPC, useGRPC: useGRPC, conc: conc, mpIdx: map[string]int{}}
+	// a case always starts from nothing (no store file of an earlier execution)
+	if err := os.RemoveAll(dir); err != nil {
+		return nil, err
+	}
 	if err := os.MkdirAll(dir, 0o755); err != nil {
 		return nil, err
 	}
